@@ -296,14 +296,19 @@ theorem insert_remove (S : Schema) (G : List Node) (hnG : fnorm G = true) {level
             (by rw [fsize_append]; omega)
             (Nat.le_refl _) (by rw [← Nat.add_zero (fsize l'), alignedAt_append_pre]; simp)
             (alignedAt_fsize _) hnlr
-          unfold flatInsert
-          simp only [hcl, hcr]
-          cases parent with
-          | none => exact ⟨_, rfl⟩
-          | some p =>
-            have := canReplace_mid S p l' G r' (hpar p rfl)
-            simp only [Nat.zero_add, this]
-            exact ⟨_, rfl⟩
+          -- the built content is the old child list again
+          have hd1 : depthAt (l' ++ r') (fsize l') = 0 := by
+            rw [← Nat.add_zero (fsize l'), depthAt_append_pre]; simp
+          have hback : fappend (fappend cl G) cr = l' ++ G ++ r' := by
+            apply ftoks_inj _ _ (fappend_norm _ _ (fappend_norm _ _ (fcut_norm _ _ _ _ hnlr hcl) hnG)
+              (fcut_norm _ _ _ _ hnlr hcr)) hn
+            rw [fappend_toks, fappend_toks, fcut_prefix_toks hcl (by rw [fsize_append]; omega) hd1,
+              fcut_suffix_toks hcr hd1, ftoks_append, ftoks_append, ftoks_append,
+              win_take _ _ _ (ftoks_length _), win_drop _ _ _ (ftoks_length _)]
+          refine ⟨_, flatInsert_of_cuts hcl hcr ?_⟩
+          intro p hp
+          rw [hback]
+          exact hpar p hp
         · simp at hrr
         · simp at hrr
   | @down level pre ns k ty a m F T F' T' hl hF hT hk ih =>
@@ -480,6 +485,9 @@ theorem gapFitsBack_of_clean (S : Schema) (doc : Node) (f t gf gt : Nat) (old re
     simpa using this
   -- unfold the guard
   simp only [gapFitsBack, hsl, hgap, hrm]
+  have hrs := (removeBetween_size old rem (gf - f) (gt - f) (by omega) hrm).1
+  have hbound : ((gf - f : Nat) : Int) ≤ rem.size := by rw [hrs, hosz]; omega
+  rw [insertAt_of_le hbound]
   unfold Slice.removeBetween at hrm
   simp only at hrm
   split at hrm
@@ -490,7 +498,7 @@ theorem gapFitsBack_of_clean (S : Schema) (doc : Node) (f t gf gt : Nat) (old re
       obtain ⟨c, hc⟩ := insert_remove S gap.content hgn.1 hpath c1 none old.openStart old.openEnd hc1
         hon.1 hov (by intro p hp; simp at hp)
         (by rw [hwin]; congr 1; omega)
-      simp only [Slice.insertAt, hc]
+      simp only [Slice.insertAtIn, hc]
     · simp at hrm
 
 end PM
